@@ -21,11 +21,16 @@ RULE = ("all 18 metric functions x option combinations (symmetric, square_root, 
         "constructor options. non-trivial = accepted call with horizon >= 2 and not all errors zero; "
         "distinct = distinct canonical JSON case")
 TRUSTED = [
-    "translator/metricq.py (Python ast -> Gallina, fail-closed): the three private helpers "
-    "expression by expression, the structure of the 18 public functions, their option defaults, "
-    "and the wrapper facts of the 18 classes; its reading of numpy calls is the modelled "
-    "semantics below. Validated on every run: Bridge.v proves the regenerated definitions equal to "
-    "the model that the implementation is compared with",
+    "translator/metricq.py + translator/metricsym.py (fail-closed): every function / method is "
+    "executed symbolically (same-module helpers, self._helper() and super().__init__ inlined "
+    "along the C3 MRO; statements in continuation style) and the readers inspect the TERM it "
+    "computes in each mode (horizon_weight None / array, multioutput raw / uniform / array, "
+    "square_root) - never the text of a statement: the three private helpers as Q expressions, "
+    "the structure of the 18 public functions, their option defaults, and the wrapper facts of "
+    "the 18 classes (what the constructor chain stores, what __call__ passes). Statements run for "
+    "their effect alone: calls of check_consistent_length / check_time_index, and `raise` under "
+    "conditions on type / shape / index facts only. Validated on every run: Bridge.v proves the "
+    "regenerated definitions equal to the model that the implementation is compared with",
     "modelled, not verified: numpy element-wise arithmetic / np.where / np.maximum / np.minimum / "
     "np.abs / np.square as the scalar operation per horizon step, np.average / np.mean / np.median, "
     "scipy gmean, sklearn 1.7 mean_absolute_error / mean_squared_error / root_mean_squared_error / "
